@@ -77,6 +77,16 @@ P('C20','compiler bounds report (every check the prove pass cannot eliminate) ma
   "Decides structurally that logging cannot disturb a request and reports UTC: every compiler-unproved bounds check on the logging/formatter path is discharged by a guard rule or a reviewed per-symbol reason (anything new is reported), no other panic source exists there, all calendar fields with a fixed UTC suffix come from UTC() times, documented fields exist and the named formats use only known fields, ServeHTTP logs exactly once after the response with the event fully populated, package logger cannot reach the response writer, and the pooled buffer/ shared writer are used in order and under the mutex. Agreement of the hand-written formatters with strconv/fmt/time on every value is numeric/string equality over value domains and not decided.",
   COMMON_NOTE)
 
+P('C03','sibling agreement of normaliser chains on both operands of every host comparison, interprocedural key canonicality, dominance of the per-host sort over the constructors\' success returns, ordering/first-match rules on the lookup loops',
+  "Decides structural necessary conditions of most-specific matching: request host and pattern pass through the same normalisers (lower-casing, default-port removal) in both host matchers; every table access uses a canonical lower-cased key; both constructors sort every host's routes before returning and dispatch the same commands; host lists are returned through the reverse-host sort with all keys examined; host-less routes are tried last and the first host yielding a target decides; lookup lower-cases its key and returns at the first route the matcher accepts. That reversed-name order equals DNS specificity and the matchers' truth tables are string/third-party semantics and not decided.",
+  COMMON_NOTE)
+P('C05','interprocedural key-canonicality value flow (parameters, multi-value returns, slices), must-pass-through of the cleanup loops, table agreement between the add grammar regexp and the renderer, producer/consumer quoting agreement',
+  "Decides structural necessary conditions of the command semantics: add, del and weight address the same lower-cased host entry (every table index is canonical); every Route.filter call in a table method is followed on all paths by the loops removing target-less routes and route-less hosts (no early exit, rebuild on every iteration); the renderer emits route add / weight / tags / opts in the order the grammar accepts; no producer escapes quoted fields the parser reads verbatim; route weight without a match fails. Equality with an independent model, idempotence and the weight round trip are value equality of data structures and not decided.",
+  COMMON_NOTE)
+P('C14','taint-to-text rule: catalog-derived command strings reach the command list only on the true edge of a validator whose structure is checked (route.Parse ok, exactly one definition, route add); producer/consumer quoting agreement; join completeness of the per-service goroutines; value-flow rule for the destination',
+  "Decides that every command built from a service registration is validated by fabio's own parser as exactly one route add before it can enter the configuration text (an inexpressible registration is dropped on its own and cannot block or inject), that quoted fields are written as the parser reads them, that each service contributes exactly one result and a failing catalog query or empty result affects only that service, that non-finite weights cannot leave the parser, and that the destination is service address (node address as fallback) + service port with the scheme chosen by the proto option. That the parsed command denotes the registration for every value is string equality after a parse and not decided.",
+  COMMON_NOTE)
+
 checks=[]; na=[]
 for p in props:
     id=p['id']
